@@ -33,6 +33,27 @@ Theorem C07_claims_only_credit : forall s perm pid val cid ct s',
 Proof. intros. apply create_claim_effect in H. destruct H as (_ & pr & H1 & _ & H2 & _). eauto. Qed.
 Print Assumptions C07_claims_only_credit.
 
+(* the blacklist: only the holder of the bridge's administrator role changes it; after an accepted update exactly the
+   listed Ethereum accounts are refused (an address is an account here: the harness gives every spelling of one address
+   the same id, and the correspondence check compares the stored list as a set of accounts) *)
+Theorem C07_blacklist_update : forall s sender addrs s',
+  set_blacklist s true sender addrs = Ok s' ->
+  (forall a is_burn sd amount symbol ceth, In a addrs -> is_ok (lock_or_burn s' is_burn sd a amount symbol ceth) = false) /\
+  (forall a, ~ In a addrs -> mem a (br_blacklist s') = false).
+Proof. exact blacklist_takes_effect. Qed.
+Print Assumptions C07_blacklist_update.
+
+Theorem C07_blacklist_update_needs_role : forall s sender addrs, exists e, set_blacklist s false sender addrs = e /\ is_ok e = false.
+Proof. exact set_blacklist_refused. Qed.
+Print Assumptions C07_blacklist_update_needs_role.
+
+Theorem C07_blacklist_update_frame : forall s is_admin sender addrs s',
+  set_blacklist s is_admin sender addrs = Ok s' ->
+  is_admin = true /\ br_blacklist s' = addrs /\ br_bank s' = br_bank s /\ br_prophecies s' = br_prophecies s /\
+  br_paused s' = br_paused s /\ br_peggy s' = br_peggy s /\ br_accounts s' = br_accounts s.
+Proof. exact set_blacklist_effect. Qed.
+Print Assumptions C07_blacklist_update_frame.
+
 Example C07_guards :
   let s := mkBridge (mkBank [(10, [(1001, 100000000000000000000000)])] []) [] [] [] [] [] [1001] true [] None 11 [10] in
   lock_or_burn s true 10 1 5 1001 LOCK_GAS_COST = Err 1.
